@@ -252,6 +252,23 @@ def run_property(pid: str, tier: str, seed: int) -> int:
         print(r["harness_error"])
         return 2
 
+    # determinism self-check: the first, a middle and the last case are executed again in this (parent)
+    # process and must give the same outcome and the same violation signatures
+    if os.environ.get("VERIF_NO_SELFCHECK") != "1" and done:
+        for k in sorted({0, len(done) // 2, len(done) - 1}):
+            i, r = done[k]
+            if r.get("wall", 0) > 20:
+                continue
+            _, again = _worker_run((i, cases[i]))
+            if "harness_error" in again:
+                print(f"HARNESS-ERROR property={pid} self-check re-execution failed: {again['harness_error'][:300]}")
+                return 2
+            a = (r["outcome"], sorted(vsig(v) for v in r["violations"]))
+            b = (again["outcome"], sorted(vsig(v) for v in again["violations"]))
+            if a != b:
+                print(f"HARNESS-ERROR property={pid} nondeterministic case {json.dumps(cases[i], default=str)[:300]}: {a} vs {b}")
+                return 2
+
     findings = load_findings(pid)
     hits = {id(e): 0 for e in findings}
     new_violations = []  # (case index, violation)
